@@ -14,18 +14,18 @@ theorem W_one : IAm.W 1 = 1 := by decide
 
 /-- Condition code followed by `BRZ L`: control is at `L` if the value is zero, behind the branch
     otherwise. -/
-theorem exec_cond_brz {t : Bool} (K : PCtx) (wf : K.WF) (C : AExpr) (w : Word) (σ : X.St) (hC : ExecAt t K C w σ)
+theorem exec_cond_brz {t : Bool} (K : PCtx) (wf : K.WF) (C : AExpr) (w : Word) (σ σ' : X.St) (hC : ExecT t K C w σ σ')
     (gs : GS) (cc : Code) (gs1 : GS) (i : Nat) (a b : Word) (mem : Mem) (io : Isa.IOSt) (hio : σ.io = io) (L : String) (jL : Nat) (kL : LabelKind)
     (hg : genExpr K.ctx C .A gs = .ok (cc, gs1)) (hat : At K.env.ds i (K.low cc))
     (hbr : K.env.ds[i + (K.low cc).length]? = some (.ref 0xA L true))
     (hlbl : K.env.ds[jL]? = some (.label kL L)) (hr : Rep K σ mem)
     (hsz : gs1.size ≤ K.S) (hnl : K.nlocals ≤ gs.offset) (hci : ConstsIn K gs1) :
-    ∃ b1 mem1, Steps K.env (cfg i a b mem) io (cfg (if w = 0 then jL else i + (K.low cc).length + 1) w b1 mem1) io ∧
-      Rep K σ mem1 := by
+    ∃ b1 mem1, Steps K.env (cfg i a b mem) io (cfg (if w = 0 then jL else i + (K.low cc).length + 1) w b1 mem1) σ'.io ∧
+      Rep K σ' mem1 := by
   subst hio
   obtain ⟨b1, mem1, st, rep, _⟩ := hC gs cc gs1 i a b mem hg hat hr hsz hnl hci
   have lL := labelIdx_of_nodup _ _ _ _ wf.nodup hlbl
-  have s0 := Step.brz (env := K.env) (cfg (i + (K.low cc).length) w b1 mem1) σ.io L jL hbr lL
+  have s0 := Step.brz (env := K.env) (cfg (i + (K.low cc).length) w b1 mem1) σ'.io L jL hbr lL
   exact ⟨b1, mem1, st.trans (Steps.one s0), rep⟩
 
 theorem low_dirs (K : PCtx) : ∀ (ds : List Dir), K.low (ds.map IDir.dir) = ds := by
@@ -252,8 +252,13 @@ theorem execS_assignSub (fuel : Nat) (n : String) (ix e : X.Expr) (σ : X.St) (h
         rw [hs.2.2.2.1] at st1
         -- the array
         have rep1' : Rep K s2 mem1 := (rep1.same hs1).same hs2
-        obtain ⟨id, ad, hid, hloc, hlt, hptr⟩ := rep1'.aptr n r (arrayOf_ok _ _ _ _ harr)
+        obtain ⟨ad, hloc, hlt, hptr0⟩ := rep1'.aptr n r (arrayOf_ok _ _ _ _ harr)
+        obtain ⟨id, hid⟩ : ∃ id, r = .glob id := by
+          cases r with
+          | glob id => exact ⟨id, rfl⟩
+          | lit ws => simp [X.arrSet] at hset
         subst hid
+        have hptr : mem1.read ad = BitVec.ofNat 32 (K.abase id) := hptr0
         obtain ⟨cells, hc, h0, h1', hσ''⟩ := arrSet_glob s2 σ'' id iv w hset
         obtain ⟨hcsz, _⟩ := rep1'.acells id cells hc
         have hidx : iv.toInt.toNat < K.asize id := by omega
@@ -345,21 +350,47 @@ theorem out_skip (fuel : Nat) (s : X.St) (j : Nat) (a b : Word) (mem : Mem) (hr 
       rw [hs.2.2.2.1]
       exact Steps.refl _ _
 
-/-- What the statement lemmas need of a condition: evaluating it does not stop the program,
-    changes nothing the representation looks at, and its code computes its value. -/
+/-- The code of the generator `gen`, started in a machine state that represents `σ`, terminates
+    the program with exit code `cd` in the state `σ'`. -/
+def ExitsM (K : PCtx) (gen : M Code) (σ : X.St) (cd : Word) (σ' : X.St) : Prop :=
+  ∀ (gs : GS) (code : Code) (gs' : GS) (i : Nat) (a b : Word) (mem : Mem),
+    gen gs = .ok (code, gs') → At K.env.ds i (K.low code) → Rep K σ mem →
+    gs'.size ≤ K.S → K.nlocals ≤ gs.offset → ConstsIn K gs' →
+    ∃ c, Steps K.env (cfg i a b mem) σ.io c σ'.io ∧ Exit K.env c σ'.io cd
+
+/-- What the statement lemmas need of a condition: its code computes its value, leading from the
+    state before to the state after the evaluation (they differ when the condition calls a
+    procedure with effects), or terminates the program when the evaluation does; a condition
+    without a call changes nothing the representation looks at. -/
 structure CondOK (K : PCtx) (fuel : Nat) (c : X.Expr) : Prop where
-  noexit : ∀ st mem cd s, Rep K st mem → X.eval fuel K.xc c st ≠ .exit cd s
-  io : ∀ st mem v s, Rep K st mem → X.eval fuel K.xc c st = .ok v s → s.io = st.io
-  rep : ∀ st mem v s, Rep K st mem → X.eval fuel K.xc c st = .ok v s → ∀ m, Rep K st m → Rep K s m
   exec : ∀ st mem w s, Rep K st mem → X.eval fuel K.xc c st = .ok (.int w) s →
-    ExecAt false K (optExpr (annotate K.ρ c)) w st
+    ExecT false K (optExpr (annotate K.ρ c)) w st s
+  exit : ∀ st mem cd s, Rep K st mem → X.eval fuel K.xc c st = .exit cd s →
+    ExitsM K (genExpr K.ctx (optExpr (annotate K.ρ c)) .A) st cd s
+  quiet : containsCall (optExpr (annotate K.ρ c)) = false → ∀ st mem v s, Rep K st mem →
+    X.eval fuel K.xc c st = .ok v s → s.io = st.io ∧ ∀ m, Rep K st m → Rep K s m
+  quietx : containsCall (optExpr (annotate K.ρ c)) = false → ∀ st mem cd s, Rep K st mem →
+    X.eval fuel K.xc c st ≠ .exit cd s
 
 omit wf in
 theorem condOK_pure (wf' : K.WF) (fuel : Nat) (c : X.Expr) (hp : pureE c = true) : CondOK K fuel c :=
-  ⟨fun st _ cd s _ => eval_pure_no_exit K.xc fuel c st cd s hp,
-   fun st _ v s _ h => (eval_pure K.xc fuel c st v s hp h).2.2.2.1,
-   fun st _ v s _ h m hm => hm.same (eval_pure K.xc fuel c st v s hp h),
-   fun st _ w s _ h => (expr_pure_correct K wf' fuel c st w s hp h).weaken⟩
+  ⟨fun st _ w s _ h => ((expr_pure_correct K wf' fuel c st w s hp h).weaken : ExecAt false K _ w st).same_right
+      (eval_pure K.xc fuel c st _ s hp h),
+   fun st _ cd s _ h => absurd h (eval_pure_no_exit K.xc fuel c st cd s hp),
+   fun _ st _ v s _ h => ⟨(eval_pure K.xc fuel c st v s hp h).2.2.2.1, fun m hm => hm.same (eval_pure K.xc fuel c st v s hp h)⟩,
+   fun _ st _ cd s _ => eval_pure_no_exit K.xc fuel c st cd s hp⟩
+
+omit wf in
+theorem asBool_exit' (what : String) (r : Res Val) (c : Word) (s : X.St) (h : asBool what r = .exit c s) : r = .exit c s := by
+  unfold asBool asInt Res.bind at h
+  cases hr : r with
+  | ok v s1 =>
+    rw [hr] at h
+    cases v with
+    | int w => simp only at h; split at h <;> simp at h
+    | arr _ => simp at h
+  | exit c1 s1 => rw [hr] at h; simpa using h
+  | undef w => rw [hr] at h; simp at h
 
 omit wf in
 theorem asBool_no_exit (what : String) (r : Res Val) (c : Word) (σ' : X.St) (h : ∀ cd s, r ≠ .exit cd s) :
@@ -393,12 +424,41 @@ theorem execS_ite (fuel : Nat) (c : X.Expr) (t e : X.Stmt) (σ : X.St) (hCK : Co
     have hs := tick_same _ _ _ ht
     cases hev : asBool "condition of if" (X.eval fuel K.xc c st) with
     | undef w => simp only [Res.bind]; trivial
-    | exit cd s => exact absurd hev (asBool_no_exit _ _ cd s (fun cd' s' => hCK.noexit st mem cd' s' (hr.same hs)))
+    | exit cd s =>
+      simp only [Res.bind]
+      have hx := asBool_exit' _ _ _ _ hev
+      have hrst := hr.same hs
+      have hX := hCK.exit st mem cd s hrst hx
+      rcases genStmt_ite_inv _ _ _ _ _ _ _ hg with ⟨hts, hes, hcc⟩ | ⟨hts, hes, cc, gs1, ct, h1, h2, hcode⟩ |
+          ⟨hts, hes, cc, gs1, ce, h1, h2, hcode⟩ | ⟨hts, hes, cc, gs1, ct, gs2, ce, h1, h2, h3, hcode⟩
+      · rcases hcc with ⟨_, hgc⟩ | ⟨hnc, _, _⟩
+        · obtain ⟨c', st', he⟩ := hX gs code gs' i a b mem hgc hat hrst hsz hnl hci
+          rw [hs.2.2.2.1] at st'
+          exact ⟨c', st', he⟩
+        · exact absurd hx (hCK.quietx hnc st mem cd s hrst)
+      · subst hcode
+        have e2 := genStmt_eff _ _ _ _ _ h2
+        simp only [low_append, List.append_assoc] at hat
+        obtain ⟨c', st', he⟩ := hX _ cc gs1 i a b mem h1 hat.left hrst (by have := e2.2.1; omega) hnl (hci.of_eff e2)
+        rw [hs.2.2.2.1] at st'
+        exact ⟨c', st', he⟩
+      · subst hcode
+        have e2 := genStmt_eff _ _ _ _ _ h2
+        simp only [low_append, List.append_assoc] at hat
+        obtain ⟨c', st', he⟩ := hX _ cc gs1 i a b mem h1 hat.left hrst (by have := e2.2.1; omega) hnl (hci.of_eff e2)
+        rw [hs.2.2.2.1] at st'
+        exact ⟨c', st', he⟩
+      · subst hcode
+        have e3 := genStmt_eff _ _ _ _ _ h3
+        have e2 := genStmt_eff _ _ _ _ _ h2
+        simp only [low_append, List.append_assoc] at hat
+        obtain ⟨c', st', he⟩ := hX _ cc gs1 i a b mem h1 hat.left hrst (by have := e2.2.1; have := e3.2.1; omega) hnl
+          ((hci.of_eff e3).of_eff e2)
+        rw [hs.2.2.2.1] at st'
+        exact ⟨c', st', he⟩
     | ok w s =>
       simp only [Res.bind]
       obtain ⟨hev', hbw⟩ := asBool_ok _ _ _ _ hev
-      have hs2 := hCK.rep st mem _ s (hr.same hs) hev'
-      have hio : s.io = σ.io := by rw [hCK.io st mem _ s (hr.same hs) hev', hs.2.2.2.1]
       have hC := hCK.exec st mem w s (hr.same hs) hev'
       have hrst := hr.same hs
       rcases genStmt_ite_inv _ _ _ _ _ _ _ hg with ⟨hts, hes, hcc⟩ | ⟨hts, hes, cc, gs1, ct, h1, h2, hcode⟩ |
@@ -406,20 +466,22 @@ theorem execS_ite (fuel : Nat) (c : X.Expr) (t e : X.Stmt) (σ : X.St) (hCK : Co
       · -- both branches are skip: no code
         have htk := (isSkip_iff K.ρ t).mp hts
         have hek := (isSkip_iff K.ρ e).mp hes
-        rcases hcc with ⟨_, hgc⟩ | ⟨_, hcode, _⟩
+        rcases hcc with ⟨_, hgc⟩ | ⟨hnc, hcode, _⟩
         · -- the condition is evaluated for its calls only
           have hsk : (if (w == 1) = true then X.exec fuel K.xc t s else X.exec fuel K.xc e s) = X.exec fuel K.xc .skip s := by
             rw [htk, hek]; split <;> rfl
           obtain ⟨b1, mem1, st1, rep1, _⟩ := hC gs code gs' i a b mem hgc hat hrst hsz hnl hci
-          rw [hsk, ← hio]
-          refine (out_skip K exitJ wf fuel s _ w b1 mem1 (hs2 _ rep1)).pre ?_
-          rw [hio, ← hs.2.2.2.1]
+          rw [hsk]
+          refine (out_skip K exitJ wf fuel s _ w b1 mem1 rep1).pre ?_
+          rw [← hs.2.2.2.1]
           exact st1
         · subst hcode
           have hsk : (if (w == 1) = true then X.exec fuel K.xc t s else X.exec fuel K.xc e s) = X.exec fuel K.xc .skip s := by
             rw [htk, hek]; split <;> rfl
+          obtain ⟨hio', hs2⟩ := hCK.quiet hnc st mem _ s hrst hev'
+          have hio : s.io = σ.io := by rw [hio', hs.2.2.2.1]
           rw [hsk, ← hio]
-          exact out_skip K exitJ wf fuel s _ a b mem (hs2 _ (hr.same hs))
+          exact out_skip K exitJ wf fuel s _ a b mem (hs2 _ hrst)
       · -- if c then T else skip
         have hek := (isSkip_iff K.ρ e).mp hes
         subst hcode
@@ -430,9 +492,9 @@ theorem execS_ite (fuel : Nat) (c : X.Expr) (t e : X.Stmt) (σ : X.St) (hCK : Co
         rw [hb, hl] at hat ⊢
         have hlab := hat.right.right.right.head
         simp only [List.length_cons, List.length_nil] at hlab
-        obtain ⟨b1, mem1, st1, rep1⟩ := exec_cond_brz K wf.toWF _ w st hC _ cc gs1 i a b mem σ.io hs.2.2.2.1 _ _ _ h1
+        obtain ⟨b1, mem1, st1, rep1⟩ := exec_cond_brz K wf.toWF _ w st s hC _ cc gs1 i a b mem σ.io hs.2.2.2.1 _ _ _ h1
           hat.left hat.right.head hlab hrst (by have := e2.2.1; omega) hnl (hci.of_eff e2)
-        have rep1s := hs2 _ rep1
+        have rep1s := rep1
         simp only [List.length_append, List.length_cons, List.length_nil]
         by_cases hw1 : (w == 1) = true
         · have hw : w = 1 := by simpa using hw1
@@ -442,7 +504,6 @@ theorem execS_ite (fuel : Nat) (c : X.Expr) (t e : X.Stmt) (σ : X.St) (hCK : Co
           have e1 := genExpr_eff _ _ _ _ _ _ h1
           have hT := iht s gs1 ct gs' (i + (K.low cc).length + 1) w b1 mem1 h2
             (by simpa [Nat.add_assoc] using hat.right.right.left) rep1s hsz (by have := e1.1; simp only at this; omega) hci
-          rw [hio] at hT
           have hpost := hT.post (j' := i + ((K.low cc).length + (1 + ((K.low ct).length + 1))))
             (fun a' b' m' io' => by
               have := step_label K _ _ _ hlab a' b' m' io'
@@ -451,12 +512,11 @@ theorem execS_ite (fuel : Nat) (c : X.Expr) (t e : X.Stmt) (σ : X.St) (hCK : Co
         · have hw : w = 0 := isBool_ne_one w hbw (by simpa using hw1)
           rw [if_pos hw] at st1
           simp only [hw1, Bool.false_eq_true, if_false]
-          rw [hek, ← hio]
+          rw [hek]
           have := out_skip K exitJ wf fuel s (i + ((K.low cc).length + (1 + ((K.low ct).length + 1)))) w b1 mem1 rep1s
           refine this.pre ?_
-          rw [hio]
           refine st1.trans ?_
-          have := step_label K _ _ _ hlab w b1 mem1 σ.io
+          have := step_label K _ _ _ hlab w b1 mem1 s.io
           simpa [Nat.add_assoc] using this
       · -- if c then skip else E
         have htk := (isSkip_iff K.ρ t).mp hts
@@ -472,32 +532,30 @@ theorem execS_ite (fuel : Nat) (c : X.Expr) (t e : X.Stmt) (σ : X.St) (hCK : Co
         have helse := hat.right.left.get 2 _ rfl
         have hend := hat.right.right.right.head
         simp only [List.length_cons, List.length_nil, Nat.add_zero] at hbrz hbr helse hend
-        obtain ⟨b1, mem1, st1, rep1⟩ := exec_cond_brz K wf.toWF _ w st hC _ cc gs1 i a b mem σ.io hs.2.2.2.1 _ _ _ h1
+        obtain ⟨b1, mem1, st1, rep1⟩ := exec_cond_brz K wf.toWF _ w st s hC _ cc gs1 i a b mem σ.io hs.2.2.2.1 _ _ _ h1
           hat.left hbrz helse hrst (by have := e2.2.1; omega) hnl (hci.of_eff e2)
-        have rep1s := hs2 _ rep1
+        have rep1s := rep1
         simp only [List.length_append, List.length_cons, List.length_nil]
         by_cases hw1 : (w == 1) = true
         · have hw : w = 1 := by simpa using hw1
           have hne : ¬ w = 0 := by rw [hw]; decide
           rw [if_neg hne] at st1
           simp only [hw1, if_true]
-          rw [htk, ← hio]
+          rw [htk]
           have := out_skip K exitJ wf fuel s (i + ((K.low cc).length + (0 + 1 + 1 + 1 + ((K.low ce).length + (0 + 1))))) w b1 mem1 rep1s
           refine this.pre ?_
-          rw [hio]
           refine st1.trans ?_
-          have sA := step_br K wf.toWF _ _ _ _ hbr hend w b1 mem1 σ.io
-          have sB := step_label K _ _ _ hend w b1 mem1 σ.io
+          have sA := step_br K wf.toWF _ _ _ _ hbr hend w b1 mem1 s.io
+          have sB := step_label K _ _ _ hend w b1 mem1 s.io
           have := sA.trans sB
           simpa [Nat.add_assoc] using this
         · have hw : w = 0 := isBool_ne_one w hbw (by simpa using hw1)
           rw [if_pos hw] at st1
           simp only [hw1, Bool.false_eq_true, if_false]
           have e1 := genExpr_eff _ _ _ _ _ _ h1
-          have sL := step_label K _ _ _ helse w b1 mem1 σ.io
+          have sL := step_label K _ _ _ helse w b1 mem1 s.io
           have hE := ihe s gs1 ce gs' (i + (K.low cc).length + 2 + 1) w b1 mem1 h2
             (by simpa [Nat.add_assoc] using hat.right.right.left) rep1s hsz (by have := e1.1; simp only at this; omega) hci
-          rw [hio] at hE
           have hpost := hE.post (j' := i + ((K.low cc).length + (0 + 1 + 1 + 1 + ((K.low ce).length + (0 + 1)))))
             (fun a' b' m' io' => by
               have := step_label K _ _ _ hend a' b' m' io'
@@ -518,9 +576,9 @@ theorem execS_ite (fuel : Nat) (c : X.Expr) (t e : X.Stmt) (σ : X.St) (hCK : Co
         have helse := hat.right.right.right.left.get 1 _ rfl
         have hend := hat.right.right.right.right.right.head
         simp only [List.length_cons, List.length_nil, Nat.add_zero] at hbr helse hend
-        obtain ⟨b1, mem1, st1, rep1⟩ := exec_cond_brz K wf.toWF _ w st hC _ cc gs1 i a b mem σ.io hs.2.2.2.1 _ _ _ h1
+        obtain ⟨b1, mem1, st1, rep1⟩ := exec_cond_brz K wf.toWF _ w st s hC _ cc gs1 i a b mem σ.io hs.2.2.2.1 _ _ _ h1
           hat.left hbrz helse hrst (by have := e2.2.1; have := e3.2.1; omega) hnl ((hci.of_eff e3).of_eff e2)
-        have rep1s := hs2 _ rep1
+        have rep1s := rep1
         have e1 := genExpr_eff _ _ _ _ _ _ h1
         simp only [List.length_append, List.length_cons, List.length_nil]
         by_cases hw1 : (w == 1) = true
@@ -531,7 +589,6 @@ theorem execS_ite (fuel : Nat) (c : X.Expr) (t e : X.Stmt) (σ : X.St) (hCK : Co
           have hT := iht s gs1 ct gs2 (i + (K.low cc).length + 1) w b1 mem1 h2
             (by simpa [Nat.add_assoc] using hat.right.right.left) rep1s (by have := e3.2.1; omega)
             (by have := e1.1; simp only at this; omega) (hci.of_eff e3)
-          rw [hio] at hT
           have hpost := hT.post (j' := i + ((K.low cc).length + (0 + 1 + ((K.low ct).length + (0 + 1 + 1 + ((K.low ce).length + (0 + 1)))))))
             (fun a' b' m' io' => by
               have sA := step_br K wf.toWF _ _ _ _ hbr hend a' b' m' io'
@@ -542,11 +599,10 @@ theorem execS_ite (fuel : Nat) (c : X.Expr) (t e : X.Stmt) (σ : X.St) (hCK : Co
         · have hw : w = 0 := isBool_ne_one w hbw (by simpa using hw1)
           rw [if_pos hw] at st1
           simp only [hw1, Bool.false_eq_true, if_false]
-          have sL := step_label K _ _ _ helse w b1 mem1 σ.io
+          have sL := step_label K _ _ _ helse w b1 mem1 s.io
           have hE := ihe s gs2 ce gs' (i + (K.low cc).length + (0 + 1) + (K.low ct).length + 1 + 1) w b1 mem1 h3
             (by simpa [Nat.add_assoc] using hat.right.right.right.right.left) rep1s hsz
             (by have := e1.1; have := e2.1; simp only at *; omega) hci
-          rw [hio] at hE
           have hpost := hE.post (j' := i + ((K.low cc).length + (0 + 1 + ((K.low ct).length + (0 + 1 + 1 + ((K.low ce).length + (0 + 1)))))))
             (fun a' b' m' io' => by
               have := step_label K _ _ _ hend a' b' m' io'
@@ -572,12 +628,24 @@ theorem execS_while (fuel : Nat) (c : X.Expr) (body : X.Stmt) (σ : X.St) (hCK :
     have hs := tick_same _ _ _ ht
     cases hev : asBool "condition of while" (X.eval fuel K.xc c st) with
     | undef w => trivial
-    | exit cd s => exact absurd hev (asBool_no_exit _ _ cd s (fun cd' s' => hCK.noexit st mem cd' s' (hr.same hs)))
+    | exit cd s =>
+      have hx := asBool_exit' _ _ _ _ hev
+      have hrst := hr.same hs
+      have hX := hCK.exit st mem cd s hrst hx
+      obtain ⟨cc, gs1, cb, h1, h2, hcode⟩ := genStmt_while_inv _ _ _ _ _ _ hg
+      have e2 := genStmt_eff _ _ _ _ _ h2
+      rw [hcode] at hat
+      simp only [low_append, List.append_assoc] at hat
+      have hlb : K.low [iLabel (lab gs.labelCount)] = [.label .plain (lab gs.labelCount)] := rfl
+      rw [hlb] at hat
+      have sBegin := step_label K _ _ _ hat.head a b mem σ.io
+      obtain ⟨c', st', he⟩ := hX _ cc gs1 (i + 1) a b mem h1 (by simpa using hat.right.left) hrst
+        (by have := e2.2.1; omega) hnl (hci.of_eff e2)
+      rw [hs.2.2.2.1] at st'
+      exact ⟨c', sBegin.trans st', he⟩
     | ok w s =>
       simp only
       obtain ⟨hev', hbw⟩ := asBool_ok _ _ _ _ hev
-      have hs2 := hCK.rep st mem _ s (hr.same hs) hev'
-      have hio : s.io = σ.io := by rw [hCK.io st mem _ s (hr.same hs) hev', hs.2.2.2.1]
       have hC := hCK.exec st mem w s (hr.same hs) hev'
       have hrst := hr.same hs
       obtain ⟨cc, gs1, cb, h1, h2, hcode⟩ := genStmt_while_inv _ _ _ _ _ _ hg
@@ -599,17 +667,16 @@ theorem execS_while (fuel : Nat) (c : X.Expr) (body : X.Stmt) (σ : X.St) (hCK :
       have hlen : (K.low code).length = 1 + ((K.low cc).length + (1 + ((K.low cb).length + 2))) := by
         rw [hcode]; simp only [low_append, List.append_assoc, hlb, hbz, hbe, List.length_append, List.length_cons, List.length_nil]
       have sBegin := step_label K _ _ _ hbegin a b mem σ.io
-      obtain ⟨b1, mem1, st1, rep1⟩ := exec_cond_brz K wf.toWF _ w st hC _ cc gs1 (i + 1) a b mem σ.io hs.2.2.2.1 _ _ _ h1
+      obtain ⟨b1, mem1, st1, rep1⟩ := exec_cond_brz K wf.toWF _ w st s hC _ cc gs1 (i + 1) a b mem σ.io hs.2.2.2.1 _ _ _ h1
         (by simpa using hat.right.left) (by simpa using hbrz) hend hrst (by have := e2.2.1; omega) hnl (hci.of_eff e2)
-      have rep1s := hs2 _ rep1
+      have rep1s := rep1
       by_cases hw0 : (w == 0) = true
       · have hw : w = 0 := by simpa using hw0
         simp only [hw0, if_true]
         rw [if_pos hw] at st1
         refine ⟨w, b1, mem1, ?_, rep1s⟩
-        rw [hio]
         refine sBegin.trans (st1.trans ?_)
-        have := step_label K _ _ _ hend w b1 mem1 σ.io
+        have := step_label K _ _ _ hend w b1 mem1 s.io
         rw [hlen]
         simpa [Nat.add_assoc] using this
       · have hw : ¬ w = 0 := by simpa using hw0
@@ -618,7 +685,6 @@ theorem execS_while (fuel : Nat) (c : X.Expr) (body : X.Stmt) (σ : X.St) (hCK :
         have hB := ihb s gs1 cb gs' (i + 1 + (K.low cc).length + 1) w b1 mem1 h2
           (by simpa [Nat.add_assoc] using hat.right.right.right.left) rep1s hsz
           (by have := e1.1; simp only at this; omega) hci
-        rw [hio] at hB
         have hpre := sBegin.trans st1
         cases hxb : X.exec fuel K.xc body s with
         | undef w' => trivial
